@@ -90,7 +90,7 @@ def _worker_chunk(args):
     prop = _PROP
     faulthandler.dump_traceback_later(_CHUNK_TIMEOUT, exit=True)
     out = {"n": 0, "stats": collections.Counter(), "states": set(), "violations": [], "samples": [],
-           "known": collections.Counter(), "digests": [], "steps": 0, "clock": 0, "cases": set()}
+           "known": collections.Counter(), "digests": [], "steps": 0, "clock": 0, "cases": set(), "fold": 0}
     try:
         for i in range(start, stop):
             run_seed = derive(seed, prop_id, i)
@@ -105,7 +105,8 @@ def _worker_chunk(args):
             out["clock"] += res.clock
             for fid, text in res.known:
                 out["known"][fid + "\t" + text] += 1
-            if i < 8 + 0 * start:
+            out["fold"] = (out["fold"] + int.from_bytes(hashlib.blake2b(("%d:%s" % (i, res.digest)).encode(), digest_size=16).digest(), "big")) % (1 << 128)
+            if i < 8:
                 out["digests"].append((i, res.digest))
             if want_samples and len(out["samples"]) < 3:
                 out["samples"].append(case)
@@ -282,9 +283,10 @@ def run_check(prop, tier, seed, jobs, runs_override=None):
     for k, start in enumerate(range(0, n_runs, chunk)):
         tasks.append((prop.id, tier, seed, start, min(n_runs, start + chunk), k == 0))
     agg = {"n": 0, "stats": collections.Counter(), "states": set(), "violations": [], "samples": [],
-           "known": collections.Counter(), "digests": {}, "steps": 0, "clock": 0, "cases": set()}
+           "known": collections.Counter(), "digests": {}, "steps": 0, "clock": 0, "cases": set(), "fold": 0}
 
     def merge(out):
+        agg["fold"] = (agg["fold"] + out["fold"]) % (1 << 128)
         agg["n"] += out["n"]
         agg["stats"].update(out["stats"])
         agg["states"] |= out["states"]
@@ -404,6 +406,7 @@ def run_check(prop, tier, seed, jobs, runs_override=None):
         "counters": other,
         "known_findings_confirmed": known_confirmed,
         "determinism_sample": det,
+        "runs_digest": "%032x" % agg["fold"],
         "violations_reported": reported,
         "notes": notes,
         "jobs": jobs,
